@@ -68,6 +68,9 @@ func newEventFromUntrustedJSONV3(eventJSON []byte, roomVersion IRoomVersion) (PD
 	if err := roomVersion.CheckCanonicalJSON(eventJSON); err != nil {
 		return nil, BadJSONError{err}
 	}
+	if err := checkNoDuplicateKeys(eventJSON); err != nil {
+		return nil, BadJSONError{err}
+	}
 
 	res := &eventV3{}
 	var err error
